@@ -35,7 +35,7 @@ man = {
                  "kind_free_text": "explicit TLA+ specification (spec/*.tla): TLC bounded exhaustive checking + TLC validation of traces recorded from the real crate on a deterministic executor"}],
     "checks": checks,
     "not_applicable": na,
-    "notes": "All checks rebuild harness/ against /repo's working tree (cargo --offline). Exit 2 = tool error (never a VIOLATION).",
+    "notes": "All checks rebuild harness/ against /repo's working tree (cargo --offline). Exit 2 = tool error (never a VIOLATION). VERIF_SEED selects the scenario seed (default 0); VERIF_JOBS the number of parallel TLC trace validations (default 12). Thorough tier: each MC configuration runs under a time budget (VERIF_MC_BUDGET, default 1500 s; what TLC explored breadth-first within it counts and is marked incomplete in the evidence). known_findings.json lists the six genuine defects found (all fixed: 'fix:' commits in /repo). seeded/ holds 170+ independently produced changes that break one property each and how the checks fare on them (DESIGN.md 0.5, 0.8); benign/ holds behaviour-preserving changes the checks stay quiet on (DESIGN.md 0.3b).",
 }
 json.dump(man, open(os.path.join(VERIF, "MANIFEST.json"), "w"), indent=1)
 print("claimed", [c["property_id"] for c in checks], "not_applicable", [n["property_id"] for n in na])
